@@ -1,2 +1,2268 @@
-//! C17 workload (under construction).
-fn main() {}
+//! C17 — decoders are total on untrusted input: no panic, no out-of-range value.
+//!
+//! One case = (decoder entry point, BITS, raw input [, fault parameters]).
+//! Every reference decoder below is written from the format definition and
+//! works on the raw input only; codec traits are never imported, every real call
+//! is fully qualified.
+
+use num_bigint::{BigInt, BigUint, Sign};
+use ruint::{support::scale::CompactUint, Bits, Uint};
+use std::str::FromStr;
+use vmon::{big, gen, rng::Rng, Arg, Mon, Panic};
+
+vmon::widths!(exec; 0, 1, 7, 8, 9, 16, 60, 63, 64, 65, 124, 127, 128, 129, 188, 250, 255, 256, 257, 384, 512);
+
+// ---------------------------------------------------------------------------
+// Reference verdicts
+// ---------------------------------------------------------------------------
+
+/// What the independent reference decoder says about an input.
+#[derive(Clone, Debug, PartialEq)]
+enum Ref {
+    /// The input denotes this value (canonical limbs for the width).
+    Val(Vec<u64>),
+    /// The input must be rejected; the payload is the (narrow) class.
+    Reject(&'static str),
+    /// The property makes no statement about the value: only "no panic" and
+    /// canonical form are checked.
+    Any,
+}
+
+fn rv(v: &BigUint, bits: usize) -> Ref {
+    if big::fits(v, bits) {
+        Ref::Val(big::limbs(v, gen::nlimbs(bits)))
+    } else {
+        Ref::Reject("overrange")
+    }
+}
+
+fn rv_be(b: &[u8], bits: usize) -> Ref {
+    rv(&BigUint::from_bytes_be(b), bits)
+}
+
+fn rv_le(b: &[u8], bits: usize) -> Ref {
+    rv(&BigUint::from_bytes_le(b), bits)
+}
+
+fn rv_u128(x: u128, bits: usize) -> Ref {
+    rv(&BigUint::from(x), bits)
+}
+
+fn kind(sub: &str, k: &str) -> String {
+    if sub.is_empty() {
+        k.to_string()
+    } else {
+        format!("{sub}.{k}")
+    }
+}
+
+/// Per-entry-point tallies of reference verdict classes and decoder outcomes
+/// (reported under `notes.c17_outcomes`; evidence only, never decides).
+#[derive(Default)]
+struct OpTally {
+    accepted: u64,
+    rejected: u64,
+    panicked: u64,
+    classes: std::collections::BTreeMap<&'static str, u64>,
+}
+
+#[derive(Default)]
+struct Tally {
+    index: std::collections::HashMap<String, usize>,
+    ops: Vec<(String, OpTally)>,
+    cur: usize,
+}
+
+thread_local! {
+    static TALLY: std::cell::RefCell<Tally> = std::cell::RefCell::new(Tally::default());
+}
+
+fn tally_enter(op: &str) {
+    TALLY.with(|t| {
+        let mut t = t.borrow_mut();
+        let i = match t.index.get(op) {
+            Some(&i) => i,
+            None => {
+                let i = t.ops.len();
+                t.ops.push((op.to_string(), OpTally::default()));
+                t.index.insert(op.to_string(), i);
+                i
+            }
+        };
+        t.cur = i;
+    });
+}
+
+fn tally_record(r: &Ref, outcome: u8) {
+    TALLY.with(|t| {
+        let mut t = t.borrow_mut();
+        if t.ops.is_empty() {
+            return;
+        }
+        let cur = t.cur;
+        let o = &mut t.ops[cur].1;
+        match outcome {
+            0 => o.accepted += 1,
+            1 => o.rejected += 1,
+            _ => o.panicked += 1,
+        }
+        let class = match r {
+            Ref::Val(_) => "value",
+            Ref::Any => "unjudged",
+            Ref::Reject(c) => c,
+        };
+        *o.classes.entry(class).or_default() += 1;
+    });
+}
+
+fn tally_report(m: &mut Mon) {
+    let v = TALLY.with(|t| {
+        let t = t.borrow();
+        let mut map = serde_json::Map::new();
+        for (name, o) in &t.ops {
+            let classes: serde_json::Map<String, serde_json::Value> =
+                o.classes.iter().map(|(k, v)| (k.to_string(), serde_json::json!(v))).collect();
+            map.insert(
+                name.clone(),
+                serde_json::json!({"accepted": o.accepted, "rejected": o.rejected, "panicked": o.panicked, "reference": classes}),
+            );
+        }
+        serde_json::Value::Object(map)
+    });
+    m.note("c17_outcomes", v);
+}
+
+/// Judge one real decoder outcome against the reference verdict.
+fn judge<const B: usize, const L: usize, E: std::fmt::Debug>(
+    m: &mut Mon,
+    sub: &str,
+    r: &Ref,
+    out: Result<Result<Uint<B, L>, E>, Panic>,
+) -> Option<Uint<B, L>> {
+    match out {
+        Err(p) => {
+            tally_record(r, 2);
+            m.unexpected_panic(&p);
+            None
+        }
+        Ok(Err(e)) => {
+            tally_record(r, 1);
+            m.obs(|| format!("{sub} reference={r:?} decoder=Err({e:?})"));
+            None
+        }
+        Ok(Ok(v)) => {
+            tally_record(r, 0);
+            m.obs(|| format!("{sub} reference={r:?} decoder=Ok({})", big::hex(v.as_limbs())));
+            m.canonical(&v);
+            match r {
+                Ref::Val(e) => {
+                    if v.as_limbs()[..] != e[..] {
+                        m.fail(&kind(sub, "value"), &big::hex(e), &big::hex(v.as_limbs()));
+                    }
+                }
+                Ref::Reject(class) => {
+                    m.fail(
+                        &kind(sub, &format!("accepts-{class}")),
+                        &format!("Err (reference: {class})"),
+                        &format!("Ok({})", big::hex(v.as_limbs())),
+                    );
+                }
+                Ref::Any => {}
+            }
+            Some(v)
+        }
+    }
+}
+
+/// (iv): an accepted input must re-encode to exactly the consumed bytes.
+fn reencode_check(m: &mut Mon, sub: &str, r: &Ref, consumed: &[u8], reenc: &[u8]) {
+    // Only meaningful when the decoder was right to accept; otherwise the
+    // accepts-* violation is already recorded.
+    if matches!(r, Ref::Val(_)) && consumed != reenc {
+        m.fail(&kind(sub, "non-canonical-accepted"), &hexs(reenc), &hexs(consumed));
+    }
+}
+
+fn hexs(b: &[u8]) -> String {
+    b.iter().map(|x| format!("{x:02x}")).collect()
+}
+
+// ---------------------------------------------------------------------------
+// Reference decoders
+// ---------------------------------------------------------------------------
+
+fn floor_log2(x: u64) -> usize {
+    63 - x.leading_zeros() as usize
+}
+
+/// `from_str_radix` grammar as documented: radix 2..=36 case-insensitive
+/// 0-9a-z with `_` ignored; radix 37..=64 the base-64 alphabets (A-Z a-z 0-9
+/// +- /,_) with `=`, CR, LF ignored.
+fn ref_radix(s: &str, radix: u64, bits: usize) -> Ref {
+    if !(2..=64).contains(&radix) {
+        return Ref::Reject("invalid-radix");
+    }
+    let mut digits: Vec<u8> = Vec::with_capacity(s.len());
+    for c in s.chars() {
+        let d = if radix <= 36 {
+            match c {
+                '0'..='9' => c as u32 - '0' as u32,
+                'a'..='z' => c as u32 - 'a' as u32 + 10,
+                'A'..='Z' => c as u32 - 'A' as u32 + 10,
+                '_' => continue,
+                _ => return Ref::Reject("invalid-digit"),
+            }
+        } else {
+            match c {
+                'A'..='Z' => c as u32 - 'A' as u32,
+                'a'..='z' => c as u32 - 'a' as u32 + 26,
+                '0'..='9' => c as u32 - '0' as u32 + 52,
+                '+' | '-' => 62,
+                '/' | ',' | '_' => 63,
+                '=' | '\r' | '\n' => continue,
+                _ => return Ref::Reject("invalid-digit"),
+            }
+        };
+        if u64::from(d) >= radix {
+            return Ref::Reject("invalid-digit");
+        }
+        digits.push(d as u8);
+    }
+    let nz = digits.iter().position(|&d| d != 0).unwrap_or(digits.len());
+    let sig = &digits[nz..];
+    if sig.is_empty() {
+        return Ref::Val(gen::zero(bits));
+    }
+    // sig has a non-zero leading digit: value >= radix^(len-1) >= 2^((len-1)*floor(log2 radix)).
+    if (sig.len() - 1) * floor_log2(radix) > bits {
+        return Ref::Reject("overrange");
+    }
+    let v = BigUint::from_radix_be(sig, radix as u32).expect("harness: reference radix conversion");
+    rv(&v, bits)
+}
+
+/// `FromStr` grammar: `0x`/`0o`/`0b` prefixes (either case), decimal otherwise.
+fn ref_from_str(s: &str, bits: usize) -> Ref {
+    let (rest, radix) = match s.get(..2) {
+        Some("0x" | "0X") => (&s[2..], 16),
+        Some("0o" | "0O") => (&s[2..], 8),
+        Some("0b" | "0B") => (&s[2..], 2),
+        _ => (s, 10),
+    };
+    ref_radix(rest, radix, bits)
+}
+
+fn ref_json_value(v: &serde_json::Value, bits: usize) -> Ref {
+    use serde_json::Value;
+    match v {
+        Value::String(s) => ref_from_str(s, bits),
+        Value::Number(n) => {
+            if let Some(x) = n.as_u64() {
+                rv_u128(u128::from(x), bits)
+            } else if n.as_i64().is_some() {
+                Ref::Reject("negative")
+            } else {
+                let f = n.as_f64().unwrap_or(f64::NAN);
+                if f >= 0.0 && f.fract() == 0.0 {
+                    Ref::Any
+                } else {
+                    Ref::Reject("wrong-type")
+                }
+            }
+        }
+        _ => Ref::Reject("wrong-type"),
+    }
+}
+
+/// JSON document: tokenised by serde_json's own `Value` parser (third party,
+/// not under test); the string/number payload is judged by our grammar.
+fn ref_json_doc(doc: &[u8], bits: usize) -> Ref {
+    match serde_json::from_slice::<serde_json::Value>(doc) {
+        Ok(v) => ref_json_value(&v, bits),
+        Err(_) => Ref::Reject("malformed-json"),
+    }
+}
+
+struct RlpItem<'a> {
+    list: bool,
+    payload: &'a [u8],
+    total: usize,
+}
+
+fn rlp_item(b: &[u8]) -> Result<RlpItem<'_>, &'static str> {
+    let Some(&t) = b.first() else {
+        return Err("truncated");
+    };
+    let (list, hdr, len): (bool, usize, u64) = match t {
+        0..=0x7f => return Ok(RlpItem { list: false, payload: &b[..1], total: 1 }),
+        0x80..=0xb7 => (false, 1, u64::from(t - 0x80)),
+        0xc0..=0xf7 => (true, 1, u64::from(t - 0xc0)),
+        _ => {
+            let ll = usize::from(t - if t < 0xc0 { 0xb7 } else { 0xf7 });
+            if b.len() < 1 + ll {
+                return Err("truncated");
+            }
+            let mut len = 0u64;
+            for &x in &b[1..1 + ll] {
+                len = (len << 8) | u64::from(x);
+            }
+            (t >= 0xc0, 1 + ll, len)
+        }
+    };
+    if ((b.len() - hdr) as u64) < len {
+        return Err("truncated");
+    }
+    let len = len as usize;
+    Ok(RlpItem { list, payload: &b[hdr..hdr + len], total: hdr + len })
+}
+
+/// RLP integer (big-endian string payload). `fixed` = Some(BYTES) for `Bits`.
+fn ref_rlp(b: &[u8], bits: usize, fixed: Option<usize>) -> (Ref, usize) {
+    match rlp_item(b) {
+        Err(c) => (Ref::Reject(c), 0),
+        Ok(it) => {
+            if it.list {
+                (Ref::Reject("list"), it.total)
+            } else if fixed.is_some_and(|n| n != it.payload.len()) {
+                (Ref::Reject("length-mismatch"), it.total)
+            } else {
+                (rv_be(it.payload, bits), it.total)
+            }
+        }
+    }
+}
+
+/// DER INTEGER contents octets (two's complement big endian).
+fn ref_der_content(c: &[u8], bits: usize) -> Ref {
+    match c.first() {
+        None => Ref::Reject("empty-content"),
+        Some(&f) if f >= 0x80 => Ref::Reject("negative"),
+        _ => rv_be(c, bits),
+    }
+}
+
+/// Whole-slice DER INTEGER (`from_der`).
+fn ref_der(b: &[u8], bits: usize) -> Ref {
+    let n = b.len();
+    if n == 0 {
+        return Ref::Reject("truncated");
+    }
+    if b[0] != 0x02 {
+        return Ref::Reject("wrong-tag");
+    }
+    if n == 1 {
+        return Ref::Reject("truncated");
+    }
+    let l0 = b[1];
+    let (hdr, len): (usize, u128) = if l0 < 0x80 {
+        (2, u128::from(l0))
+    } else if l0 == 0x80 {
+        return Ref::Reject("indefinite-length");
+    } else {
+        let k = usize::from(l0 & 0x7f);
+        if n < 2 + k {
+            return Ref::Reject("truncated");
+        }
+        let mut len = 0u128;
+        for &x in &b[2..2 + k] {
+            len = len.saturating_mul(256).saturating_add(u128::from(x));
+        }
+        (2 + k, len)
+    };
+    let rest = (n - hdr) as u128;
+    if len > rest {
+        return Ref::Reject("truncated");
+    }
+    if len < rest {
+        return Ref::Reject("trailing");
+    }
+    ref_der_content(&b[hdr..], bits)
+}
+
+/// SCALE compact integer: (little-endian value bytes, consumed bytes).
+fn scale_compact_parse(b: &[u8]) -> Result<(Vec<u8>, usize), &'static str> {
+    let Some(&f) = b.first() else {
+        return Err("truncated");
+    };
+    match f & 3 {
+        0 => Ok((vec![f >> 2], 1)),
+        1 => {
+            if b.len() < 2 {
+                return Err("truncated");
+            }
+            let x = u16::from_le_bytes([b[0], b[1]]) >> 2;
+            Ok((x.to_le_bytes().to_vec(), 2))
+        }
+        2 => {
+            if b.len() < 4 {
+                return Err("truncated");
+            }
+            let x = u32::from_le_bytes([b[0], b[1], b[2], b[3]]) >> 2;
+            Ok((x.to_le_bytes().to_vec(), 4))
+        }
+        _ => {
+            let n = usize::from(f >> 2) + 4;
+            if b.len() < 1 + n {
+                return Err("truncated");
+            }
+            Ok((b[1..1 + n].to_vec(), 1 + n))
+        }
+    }
+}
+
+fn ref_scale_compact(b: &[u8], bits: usize) -> (Ref, usize) {
+    match scale_compact_parse(b) {
+        Err(c) => (Ref::Reject(c), 0),
+        Ok((le, used)) => (rv_le(&le, bits), used),
+    }
+}
+
+/// ruint's fixed SCALE form: compact length prefix + little-endian bytes.
+fn ref_scale_fixed(b: &[u8], bits: usize) -> (Ref, usize) {
+    match scale_compact_parse(b) {
+        Err(c) => (Ref::Reject(c), 0),
+        Ok((le, used)) => {
+            let mut len = 0u128;
+            for (i, &x) in le.iter().enumerate() {
+                if i < 16 {
+                    len |= u128::from(x) << (8 * i);
+                } else if x != 0 {
+                    len = u128::MAX;
+                }
+            }
+            if len > (b.len() - used) as u128 {
+                return (Ref::Reject("truncated"), 0);
+            }
+            let len = len as usize;
+            (rv_le(&b[used..used + len], bits), used + len)
+        }
+    }
+}
+
+/// bincode (fixint): u64-LE length, then exactly BYTES big-endian bytes.
+fn ref_bincode(b: &[u8], bits: usize) -> Ref {
+    if b.len() < 8 {
+        return Ref::Reject("truncated");
+    }
+    let len = u64::from_le_bytes(b[..8].try_into().unwrap());
+    if len > (b.len() - 8) as u64 {
+        return Ref::Reject("truncated");
+    }
+    if len != ((bits + 7) / 8) as u64 {
+        return Ref::Reject("length-mismatch");
+    }
+    rv_be(&b[8..8 + len as usize], bits)
+}
+
+/// Fixed-width little-endian (SSZ: whole slice; borsh: prefix of the slice).
+fn ref_le_fixed(b: &[u8], bits: usize, exact: bool) -> Ref {
+    let by = (bits + 7) / 8;
+    if b.len() < by {
+        return Ref::Reject("truncated");
+    }
+    if exact && b.len() > by {
+        return Ref::Reject("length-mismatch");
+    }
+    rv_le(&b[..by], bits)
+}
+
+fn ref_numeric(raw: &[u8], bits: usize) -> Ref {
+    if raw.len() < 8 {
+        return Ref::Reject("truncated");
+    }
+    let nd = i16::from_be_bytes([raw[0], raw[1]]);
+    let w = i32::from(i16::from_be_bytes([raw[2], raw[3]]));
+    let sign = u16::from_be_bytes([raw[4], raw[5]]);
+    let body = &raw[8..];
+    if nd < 0 {
+        return Ref::Reject("negative-ndigits");
+    }
+    if body.len() != 2 * nd as usize {
+        return Ref::Reject("length-mismatch");
+    }
+    let ds: Vec<i16> = body.chunks_exact(2).map(|c| i16::from_be_bytes([c[0], c[1]])).collect();
+    if ds.iter().any(|d| !(0..10000).contains(d)) {
+        return Ref::Reject("invalid-digit");
+    }
+    let first = ds.iter().position(|&d| d != 0);
+    match sign {
+        0x0000 => {}
+        0x4000 => {
+            return if first.is_some() { Ref::Reject("negative") } else { Ref::Any };
+        }
+        _ => return Ref::Reject("not-a-number"),
+    }
+    let Some(first) = first else {
+        return Ref::Val(gen::zero(bits));
+    };
+    let last = ds.iter().rposition(|&d| d != 0).unwrap();
+    if w - (last as i32) < 0 {
+        return Ref::Reject("fraction");
+    }
+    // value >= 10000^(w-first) >= 2^(13 (w-first))
+    if (w - first as i32) as usize * 13 > bits + 13 {
+        return Ref::Reject("overrange");
+    }
+    let mut v = BigUint::default();
+    for i in 0..=(w as usize) {
+        v = v * 10000u32 + BigUint::from(ds.get(i).copied().unwrap_or(0) as u32);
+    }
+    rv(&v, bits)
+}
+
+fn ref_pg(name: &str, raw: &[u8], bits: usize) -> Ref {
+    fn fixed(raw: &[u8], n: usize) -> Option<Ref> {
+        if raw.len() < n {
+            Some(Ref::Reject("truncated"))
+        } else if raw.len() > n {
+            Some(Ref::Reject("length-mismatch"))
+        } else {
+            None
+        }
+    }
+    fn signed(x: i64, bits: usize) -> Ref {
+        if x < 0 {
+            Ref::Reject("negative")
+        } else {
+            rv_u128(x as u128, bits)
+        }
+    }
+    match name {
+        "BOOL" => fixed(raw, 1).unwrap_or_else(|| match raw[0] {
+            0 | 1 => rv_u128(u128::from(raw[0]), bits),
+            _ => Ref::Any,
+        }),
+        "INT2" => fixed(raw, 2).unwrap_or_else(|| signed(i64::from(i16::from_be_bytes(raw.try_into().unwrap())), bits)),
+        "INT4" => fixed(raw, 4).unwrap_or_else(|| signed(i64::from(i32::from_be_bytes(raw.try_into().unwrap())), bits)),
+        "INT8" => fixed(raw, 8).unwrap_or_else(|| signed(i64::from_be_bytes(raw.try_into().unwrap()), bits)),
+        "OID" => fixed(raw, 4).unwrap_or_else(|| rv_u128(u128::from(u32::from_be_bytes(raw.try_into().unwrap())), bits)),
+        "FLOAT4" => fixed(raw, 4).unwrap_or(Ref::Any),
+        "FLOAT8" => fixed(raw, 8).unwrap_or(Ref::Any),
+        "MONEY" => fixed(raw, 8).unwrap_or_else(|| {
+            let x = i64::from_be_bytes(raw.try_into().unwrap());
+            if x % 100 != 0 {
+                Ref::Any
+            } else {
+                signed(x / 100, bits)
+            }
+        }),
+        "BYTEA" => rv_be(raw, bits),
+        "BIT" | "VARBIT" => {
+            if raw.len() < 4 {
+                return Ref::Reject("truncated");
+            }
+            let n = i32::from_be_bytes(raw[..4].try_into().unwrap());
+            if n < 0 {
+                return Ref::Reject("negative-bit-count");
+            }
+            let n = n as usize;
+            let body = &raw[4..];
+            if body.len() != (n + 7) / 8 {
+                return Ref::Reject("length-mismatch");
+            }
+            rv(&(BigUint::from_bytes_be(body) >> (8 * body.len() - n)), bits)
+        }
+        "TEXT" | "VARCHAR" | "CHAR" => match std::str::from_utf8(raw) {
+            Err(_) => Ref::Reject("invalid-utf8"),
+            Ok(s) => ref_from_str(s, bits),
+        },
+        "JSON" | "JSONB" => {
+            let raw = if name == "JSONB" {
+                match raw.first() {
+                    None => return Ref::Reject("truncated"),
+                    Some(1) => &raw[1..],
+                    Some(_) => return Ref::Reject("jsonb-version"),
+                }
+            } else {
+                raw
+            };
+            match std::str::from_utf8(raw) {
+                Err(_) => Ref::Reject("invalid-utf8"),
+                Ok(s) => {
+                    // A JSON string whose content is a FromStr literal, or the
+                    // bare literal (DESIGN appendix: quotes + FromStr grammar).
+                    let inner = if s.len() >= 2 && s.starts_with('"') && s.ends_with('"') {
+                        &s[1..s.len() - 1]
+                    } else {
+                        s
+                    };
+                    ref_from_str(inner, bits)
+                }
+            }
+        }
+        "NUMERIC" => ref_numeric(raw, bits),
+        _ => Ref::Reject("unsupported-type"),
+    }
+}
+
+fn pg_type(name: &str) -> postgres_types::Type {
+    use postgres_types::Type;
+    match name {
+        "BOOL" => Type::BOOL,
+        "CHAR" => Type::CHAR,
+        "INT2" => Type::INT2,
+        "INT4" => Type::INT4,
+        "INT8" => Type::INT8,
+        "OID" => Type::OID,
+        "FLOAT4" => Type::FLOAT4,
+        "FLOAT8" => Type::FLOAT8,
+        "MONEY" => Type::MONEY,
+        "NUMERIC" => Type::NUMERIC,
+        "BYTEA" => Type::BYTEA,
+        "TEXT" => Type::TEXT,
+        "VARCHAR" => Type::VARCHAR,
+        "JSON" => Type::JSON,
+        "JSONB" => Type::JSONB,
+        "BIT" => Type::BIT,
+        "VARBIT" => Type::VARBIT,
+        "TIMESTAMP" => Type::TIMESTAMP,
+        "UUID" => Type::UUID,
+        "INT4_ARRAY" => Type::INT4_ARRAY,
+        _ => panic!("harness: unknown postgres type {name}"),
+    }
+}
+
+// ---------------------------------------------------------------------------
+// Reference encoders (used to build inputs and for the re-encode check)
+// ---------------------------------------------------------------------------
+
+fn strip0(b: &[u8]) -> &[u8] {
+    let z = b.iter().position(|&x| x != 0).unwrap_or(b.len());
+    &b[z..]
+}
+
+fn pad_be(b: &[u8], n: usize) -> Vec<u8> {
+    let mut v = vec![0u8; n.saturating_sub(b.len())];
+    v.extend_from_slice(b);
+    v
+}
+
+/// Minimal big-endian bytes of a limb vector (empty for zero).
+fn be_min(limbs: &[u64]) -> Vec<u8> {
+    let mut v = Vec::with_capacity(limbs.len() * 8);
+    for l in limbs.iter().rev() {
+        v.extend_from_slice(&l.to_be_bytes());
+    }
+    strip0(&v).to_vec()
+}
+
+fn cat(parts: &[&[u8]]) -> Vec<u8> {
+    parts.concat()
+}
+
+fn be_len(n: usize) -> Vec<u8> {
+    let b = (n as u64).to_be_bytes();
+    let s = strip0(&b);
+    if s.is_empty() {
+        vec![0]
+    } else {
+        s.to_vec()
+    }
+}
+
+/// RLP header + payload, never collapsing a single byte.
+fn rlp_string(p: &[u8], base: u8) -> Vec<u8> {
+    if p.len() < 56 {
+        cat(&[&[base + p.len() as u8], p])
+    } else {
+        let l = be_len(p.len());
+        cat(&[&[base + 0x37 + l.len() as u8], &l, p])
+    }
+}
+
+/// Canonical RLP encoding of the integer with big-endian magnitude `mag`.
+fn enc_rlp(mag: &[u8]) -> Vec<u8> {
+    let p = strip0(mag);
+    if p.len() == 1 && p[0] < 0x80 {
+        vec![p[0]]
+    } else {
+        rlp_string(p, 0x80)
+    }
+}
+
+fn der_len(n: usize) -> Vec<u8> {
+    if n < 0x80 {
+        vec![n as u8]
+    } else {
+        let l = be_len(n);
+        cat(&[&[0x80 | l.len() as u8], &l])
+    }
+}
+
+fn der_content(mag: &[u8]) -> Vec<u8> {
+    let p = strip0(mag);
+    if p.first().copied().unwrap_or(0x80) >= 0x80 {
+        cat(&[&[0], p])
+    } else {
+        p.to_vec()
+    }
+}
+
+fn enc_der(mag: &[u8]) -> Vec<u8> {
+    let c = der_content(mag);
+    cat(&[&[0x02], &der_len(c.len()), &c])
+}
+
+/// Canonical SCALE compact encoding of the integer with BE magnitude `mag`
+/// (None above 67 bytes).
+fn enc_scale_compact(mag: &[u8]) -> Option<Vec<u8>> {
+    let p = strip0(mag);
+    let bitlen = if p.is_empty() { 0 } else { 8 * p.len() - p[0].leading_zeros() as usize };
+    let mut le: Vec<u8> = p.iter().rev().copied().collect();
+    if bitlen <= 30 {
+        le.resize(4, 0);
+        let x = u32::from_le_bytes([le[0], le[1], le[2], le[3]]);
+        Some(if bitlen <= 6 {
+            vec![(x as u8) << 2]
+        } else if bitlen <= 14 {
+            (((x as u16) << 2) | 1).to_le_bytes().to_vec()
+        } else {
+            ((x << 2) | 2).to_le_bytes().to_vec()
+        })
+    } else if le.len() <= 67 {
+        Some(cat(&[&[(((le.len() - 4) as u8) << 2) | 3], &le]))
+    } else {
+        None
+    }
+}
+
+fn enc_scale_fixed(le_payload: &[u8]) -> Vec<u8> {
+    let l = enc_scale_compact(&be_len(le_payload.len())).unwrap();
+    cat(&[&l, le_payload])
+}
+
+fn enc_bincode(payload: &[u8]) -> Vec<u8> {
+    cat(&[&(payload.len() as u64).to_le_bytes(), payload])
+}
+
+fn rev(b: &[u8]) -> Vec<u8> {
+    b.iter().rev().copied().collect()
+}
+
+fn enc_varbit(n: i32, body: &[u8]) -> Vec<u8> {
+    cat(&[&n.to_be_bytes(), body])
+}
+
+fn numeric_raw(nd: i16, w: i16, sign: u16, dscale: u16, digits: &[i16]) -> Vec<u8> {
+    let mut v = vec![];
+    v.extend_from_slice(&nd.to_be_bytes());
+    v.extend_from_slice(&w.to_be_bytes());
+    v.extend_from_slice(&sign.to_be_bytes());
+    v.extend_from_slice(&dscale.to_be_bytes());
+    for d in digits {
+        v.extend_from_slice(&d.to_be_bytes());
+    }
+    v
+}
+
+/// Base-10000 digits (big endian, trailing zeros trimmed) and weight.
+fn numeric_digits(v: &BigUint) -> (Vec<i16>, i16) {
+    // BigUint::to_radix_be only supports radix <= 256; do it by hand.
+    let mut ds: Vec<i16> = vec![];
+    let mut x = v.clone();
+    let base = BigUint::from(10000u32);
+    while x != BigUint::default() {
+        let d = (&x % &base).to_u32_digits().first().copied().unwrap_or(0);
+        ds.push(d as i16);
+        x /= &base;
+    }
+    ds.reverse();
+    let w = ds.len().saturating_sub(1) as i16;
+    while ds.last() == Some(&0) {
+        ds.pop();
+    }
+    (ds, w)
+}
+
+// ---------------------------------------------------------------------------
+// Fault-injecting readers
+// ---------------------------------------------------------------------------
+
+const F_ONE: u128 = 1; // io: one byte per read call | SCALE: remaining_len unknown
+const F_INTR: u128 = 2; // io: every other call returns Interrupted | SCALE: remaining_len fails
+const F_ERR: u128 = 4; // the fault is an error instead of end-of-input
+const F_FAULT: u128 = 8; // input ends / fails at offset k
+
+fn effective(data: &[u8], k: usize, flags: u128) -> &[u8] {
+    if flags & F_FAULT != 0 {
+        &data[..k.min(data.len())]
+    } else {
+        data
+    }
+}
+
+struct FaultReader<'a> {
+    data: &'a [u8], // already cut at the fault offset
+    pos: usize,
+    flags: u128,
+    tick: bool,
+}
+
+impl std::io::Read for FaultReader<'_> {
+    fn read(&mut self, buf: &mut [u8]) -> std::io::Result<usize> {
+        if buf.is_empty() {
+            return Ok(0);
+        }
+        if self.flags & F_INTR != 0 {
+            self.tick = !self.tick;
+            if self.tick {
+                return Err(std::io::Error::new(std::io::ErrorKind::Interrupted, "interrupted"));
+            }
+        }
+        if self.pos >= self.data.len() {
+            return if self.flags & F_FAULT != 0 && self.flags & F_ERR != 0 {
+                Err(std::io::Error::new(std::io::ErrorKind::Other, "injected fault"))
+            } else {
+                Ok(0)
+            };
+        }
+        let mut n = buf.len().min(self.data.len() - self.pos);
+        if self.flags & F_ONE != 0 {
+            n = 1;
+        }
+        buf[..n].copy_from_slice(&self.data[self.pos..self.pos + n]);
+        self.pos += n;
+        Ok(n)
+    }
+}
+
+struct FaultInput<'a> {
+    data: &'a [u8], // already cut at the fault offset
+    pos: usize,
+    flags: u128,
+}
+
+impl parity_scale_codec::Input for FaultInput<'_> {
+    fn remaining_len(&mut self) -> Result<Option<usize>, parity_scale_codec::Error> {
+        if self.flags & F_INTR != 0 {
+            Err("injected remaining_len fault".into())
+        } else if self.flags & F_ONE != 0 {
+            Ok(None)
+        } else {
+            Ok(Some(self.data.len() - self.pos))
+        }
+    }
+
+    fn read(&mut self, into: &mut [u8]) -> Result<(), parity_scale_codec::Error> {
+        if into.len() > self.data.len() - self.pos {
+            return Err("injected fault: not enough data".into());
+        }
+        into.copy_from_slice(&self.data[self.pos..self.pos + into.len()]);
+        self.pos += into.len();
+        Ok(())
+    }
+}
+
+// ---------------------------------------------------------------------------
+// The monitored calls
+// ---------------------------------------------------------------------------
+
+fn exec<const B: usize, const L: usize>(m: &mut Mon, op: &str, a: &[Arg]) {
+    let by = (B + 7) / 8;
+    tally_enter(op);
+    match op {
+        // ---- byte-slice parsers -------------------------------------------------
+        "try_from_be_slice" => {
+            let b = a[0].b();
+            m.nontrivial(b.len() >= 2);
+            let r = rv_be(b, B);
+            let out = m.call(|| Uint::<B, L>::try_from_be_slice(b).ok_or("None"));
+            judge(m, "", &r, out);
+            let out = m.call(|| Bits::<B, L>::try_from_be_slice(b).map(Bits::into_inner).ok_or("None"));
+            judge(m, "bits", &r, out);
+        }
+        "try_from_le_slice" => {
+            let b = a[0].b();
+            m.nontrivial(b.len() >= 2);
+            let r = rv_le(b, B);
+            let out = m.call(|| Uint::<B, L>::try_from_le_slice(b).ok_or("None"));
+            judge(m, "", &r, out);
+            let out = m.call(|| Bits::<B, L>::try_from_le_slice(b).map(Bits::into_inner).ok_or("None"));
+            judge(m, "bits", &r, out);
+        }
+        // ---- text parsers -------------------------------------------------------
+        "from_str" => {
+            let s = a[0].s();
+            m.nontrivial(s.chars().count() >= 2);
+            let r = ref_from_str(s, B);
+            let out = m.call(|| Uint::<B, L>::from_str(s));
+            judge(m, "", &r, out);
+            let out = m.call(|| Bits::<B, L>::from_str(s).map(Bits::into_inner));
+            judge(m, "bits", &r, out);
+        }
+        "from_str_radix" => {
+            let s = a[0].s();
+            let radix = a[1].n() as u64;
+            m.nontrivial(s.chars().count() >= 2);
+            let r = ref_radix(s, radix, B);
+            let out = m.call(|| Uint::<B, L>::from_str_radix(s, radix));
+            judge(m, "", &r, out);
+        }
+        "from_base_be" | "from_base_le" => {
+            let digits = a[0].u();
+            let base = a[1].n() as u64;
+            m.nontrivial(digits.len() >= 2);
+            let r = if base < 2 {
+                Ref::Reject("invalid-base")
+            } else if digits.iter().any(|&d| d >= base) {
+                Ref::Reject("invalid-digit")
+            } else {
+                let mut v = BigUint::default();
+                let it: Box<dyn Iterator<Item = &u64>> =
+                    if op == "from_base_be" { Box::new(digits.iter()) } else { Box::new(digits.iter().rev()) };
+                let mut over = false;
+                for &d in it {
+                    v = v * base + d;
+                    if v.bits() as usize > B {
+                        over = true;
+                        break;
+                    }
+                }
+                if over {
+                    Ref::Reject("overrange")
+                } else {
+                    rv(&v, B)
+                }
+            };
+            let out = if op == "from_base_be" {
+                m.call(|| Uint::<B, L>::from_base_be(base, digits.iter().copied()))
+            } else {
+                m.call(|| Uint::<B, L>::from_base_le(base, digits.iter().copied()))
+            };
+            judge(m, "", &r, out);
+        }
+        // ---- serde, human readable ---------------------------------------------
+        "serde_json.str" => {
+            let s = a[0].s();
+            m.nontrivial(s.chars().count() >= 2);
+            let r = ref_json_doc(s.as_bytes(), B);
+            let out = m.call(|| serde_json::from_str::<Uint<B, L>>(s));
+            judge(m, "", &r, out);
+            let out = m.call(|| serde_json::from_str::<Bits<B, L>>(s).map(Bits::into_inner));
+            judge(m, "bits", &r, out);
+        }
+        "serde_json.slice" => {
+            let b = a[0].b();
+            m.nontrivial(b.len() >= 2);
+            let r = ref_json_doc(b, B);
+            let out = m.call(|| serde_json::from_slice::<Uint<B, L>>(b));
+            judge(m, "", &r, out);
+        }
+        "serde_json.value" => {
+            let s = a[0].s();
+            // The document is turned into a `Value` by serde_json; ruint's
+            // visitor then decodes the `Value`.
+            let Ok(val) = serde_json::from_str::<serde_json::Value>(s) else {
+                m.nontrivial(false);
+                return;
+            };
+            m.nontrivial(s.chars().count() >= 2);
+            let r = ref_json_value(&val, B);
+            let out = m.call(|| serde_json::from_value::<Uint<B, L>>(val));
+            judge(m, "", &r, out);
+        }
+        "serde.str" => {
+            use serde::de::IntoDeserializer;
+            let s = a[0].s();
+            m.nontrivial(s.chars().count() >= 2);
+            let r = ref_from_str(s, B);
+            let out = m.call(|| {
+                let d: serde::de::value::StrDeserializer<'_, serde::de::value::Error> = s.into_deserializer();
+                <Uint<B, L> as serde::Deserialize>::deserialize(d)
+            });
+            judge(m, "", &r, out);
+        }
+        "serde.u64" => {
+            use serde::de::IntoDeserializer;
+            let x = a[0].n() as u64;
+            m.nontrivial(x >= 2);
+            let r = rv_u128(u128::from(x), B);
+            let out = m.call(|| {
+                let d: serde::de::value::U64Deserializer<serde::de::value::Error> = x.into_deserializer();
+                <Uint<B, L> as serde::Deserialize>::deserialize(d)
+            });
+            judge(m, "", &r, out);
+        }
+        "serde.u128" => {
+            use serde::de::IntoDeserializer;
+            let x = a[0].n();
+            m.nontrivial(x >= 2);
+            let r = rv_u128(x, B);
+            let out = m.call(|| {
+                let d: serde::de::value::U128Deserializer<serde::de::value::Error> = x.into_deserializer();
+                <Uint<B, L> as serde::Deserialize>::deserialize(d)
+            });
+            judge(m, "", &r, out);
+        }
+        // ---- serde, binary ------------------------------------------------------
+        "bincode" => {
+            let b = a[0].b();
+            m.nontrivial(b.len() >= 2);
+            let r = ref_bincode(b, B);
+            let out = m.call(|| bincode::deserialize::<Uint<B, L>>(b));
+            judge(m, "", &r, out);
+        }
+        "bincode.bits" => {
+            let b = a[0].b();
+            m.nontrivial(b.len() >= 2);
+            let r = ref_bincode(b, B);
+            let out = m.call(|| bincode::deserialize::<Bits<B, L>>(b).map(Bits::into_inner));
+            judge(m, "", &r, out);
+        }
+        "bincode.reader" => {
+            let (k, flags) = (a[1].us(), a[2].n());
+            let eff = effective(a[0].b(), k, flags);
+            m.nontrivial(eff.len() >= 2);
+            if eff.len() >= 8 && u64::from_le_bytes(eff[..8].try_into().unwrap()) > 1 << 20 {
+                // bincode's reader path allocates the declared length up front;
+                // that is bincode's behaviour, not ruint's, and is not exercised.
+                m.nontrivial(false);
+                m.note_add("bincode_reader_skipped_huge_length", 1);
+                return;
+            }
+            let r = ref_bincode(eff, B);
+            let out = m.call(|| {
+                let rd = FaultReader { data: eff, pos: 0, flags, tick: false };
+                bincode::deserialize_from::<_, Uint<B, L>>(rd)
+            });
+            judge(m, "", &r, out);
+        }
+        // ---- RLP ----------------------------------------------------------------
+        "rlp" => {
+            let b = a[0].b();
+            m.nontrivial(b.len() >= 2);
+            let (r, _) = ref_rlp(b, B, None);
+            let out = m.call(|| rlp::decode::<Uint<B, L>>(b));
+            judge(m, "", &r, out);
+        }
+        "rlp.bits" => {
+            let b = a[0].b();
+            m.nontrivial(b.len() >= 2);
+            let (r, _) = ref_rlp(b, B, Some(by));
+            let out = m.call(|| rlp::decode::<Bits<B, L>>(b).map(Bits::into_inner));
+            judge(m, "", &r, out);
+        }
+        "alloy_rlp" | "fastrlp03" | "fastrlp04" => {
+            let b = a[0].b();
+            m.nontrivial(b.len() >= 2);
+            let (r, _) = ref_rlp(b, B, None);
+            let out = m.call(|| {
+                let mut buf = b;
+                let v = match op {
+                    "alloy_rlp" => <Uint<B, L> as alloy_rlp::Decodable>::decode(&mut buf).map_err(|e| format!("{e:?}")),
+                    "fastrlp03" => <Uint<B, L> as fastrlp_03::Decodable>::decode(&mut buf).map_err(|e| format!("{e:?}")),
+                    _ => <Uint<B, L> as fastrlp_04::Decodable>::decode(&mut buf).map_err(|e| format!("{e:?}")),
+                };
+                v.map(|v| (v, b.len() - buf.len()))
+            });
+            let (out, used) = split_used(out);
+            if let Some(v) = judge(m, "", &r, out) {
+                reencode_check(m, "", &r, &b[..used.min(b.len())], &enc_rlp(&be_min(v.as_limbs())));
+            }
+        }
+        // ---- SCALE --------------------------------------------------------------
+        "scale.fixed" | "scale.compact" => {
+            let b = a[0].b();
+            m.nontrivial(b.len() >= 2);
+            let (r, want) = if op == "scale.fixed" { ref_scale_fixed(b, B) } else { ref_scale_compact(b, B) };
+            let out = m.call(|| {
+                let mut buf = b;
+                let v = if op == "scale.fixed" {
+                    <Uint<B, L> as parity_scale_codec::Decode>::decode(&mut buf)
+                } else {
+                    <CompactUint<B, L> as parity_scale_codec::Decode>::decode(&mut buf).map(|c| c.0)
+                };
+                v.map(|v| (v, b.len() - buf.len()))
+            });
+            let (out, used) = split_used(out);
+            if judge(m, "", &r, out).is_some() && matches!(r, Ref::Val(_)) {
+                m.eq("consumed-length", &used, &want);
+            }
+        }
+        "scale.fixed.input" | "scale.compact.input" => {
+            let (k, flags) = (a[1].us(), a[2].n());
+            let eff = effective(a[0].b(), k, flags);
+            m.nontrivial(eff.len() >= 2);
+            let fixed = op == "scale.fixed.input";
+            let (r, want) = if fixed { ref_scale_fixed(eff, B) } else { ref_scale_compact(eff, B) };
+            let out = m.call(|| {
+                let mut inp = FaultInput { data: eff, pos: 0, flags };
+                let v = if fixed {
+                    <Uint<B, L> as parity_scale_codec::Decode>::decode(&mut inp)
+                } else {
+                    <CompactUint<B, L> as parity_scale_codec::Decode>::decode(&mut inp).map(|c| c.0)
+                };
+                v.map(|v| (v, inp.pos))
+            });
+            let (out, used) = split_used(out);
+            if judge(m, "", &r, out).is_some() && matches!(r, Ref::Val(_)) {
+                m.eq("consumed-length", &used, &want);
+            }
+        }
+        // ---- SSZ / borsh --------------------------------------------------------
+        "ssz" => {
+            let b = a[0].b();
+            m.nontrivial(b.len() >= 2);
+            let r = ref_le_fixed(b, B, true);
+            let out = m.call(|| <Uint<B, L> as ssz::Decode>::from_ssz_bytes(b));
+            judge(m, "", &r, out);
+        }
+        "borsh" => {
+            let b = a[0].b();
+            m.nontrivial(b.len() >= 2);
+            let r = ref_le_fixed(b, B, false);
+            let out = m.call(|| borsh::from_slice::<Uint<B, L>>(b));
+            judge(m, "from_slice", &r, out);
+            let out = m.call(|| <Uint<B, L> as borsh::BorshDeserialize>::try_from_slice(b));
+            judge(m, "try_from_slice", &r, out);
+            let out = m.call(|| {
+                let mut buf = b;
+                <Uint<B, L> as borsh::BorshDeserialize>::deserialize(&mut buf).map(|v| (v, b.len() - buf.len()))
+            });
+            let (out, used) = split_used(out);
+            if judge(m, "deserialize", &r, out).is_some() && matches!(r, Ref::Val(_)) {
+                m.eq("deserialize.consumed-length", &used, &by);
+            }
+        }
+        "borsh.bits" => {
+            let b = a[0].b();
+            m.nontrivial(b.len() >= 2);
+            let r = ref_le_fixed(b, B, false);
+            let out = m.call(|| <Bits<B, L> as borsh::BorshDeserialize>::try_from_slice(b).map(Bits::into_inner));
+            judge(m, "", &r, out);
+        }
+        "borsh.reader" => {
+            let (k, flags) = (a[1].us(), a[2].n());
+            let eff = effective(a[0].b(), k, flags);
+            m.nontrivial(eff.len() >= 2);
+            let r = ref_le_fixed(eff, B, false);
+            let out = m.call(|| {
+                let mut rd = FaultReader { data: eff, pos: 0, flags, tick: false };
+                <Uint<B, L> as borsh::BorshDeserialize>::deserialize_reader(&mut rd).map(|v| (v, rd.pos))
+            });
+            let (out, used) = split_used(out);
+            if judge(m, "", &r, out).is_some() && matches!(r, Ref::Val(_)) {
+                m.eq("consumed-length", &used, &by);
+            }
+        }
+        _ => exec2::<B, L>(m, op, a),
+    }
+}
+
+/// Separate the "bytes consumed" side channel from a decoder outcome.
+fn split_used<T, E>(out: Result<Result<(T, usize), E>, Panic>) -> (Result<Result<T, E>, Panic>, usize) {
+    match out {
+        Ok(Ok((v, n))) => (Ok(Ok(v)), n),
+        Ok(Err(e)) => (Ok(Err(e)), 0),
+        Err(p) => (Err(p), 0),
+    }
+}
+
+fn exec2<const B: usize, const L: usize>(m: &mut Mon, op: &str, a: &[Arg]) {
+    use der::asn1::{Any, AnyRef, Int, IntRef, Uint as DerUint, UintRef};
+    match op {
+        // ---- DER ----------------------------------------------------------------
+        "der" => {
+            let b = a[0].b();
+            m.nontrivial(b.len() >= 2);
+            let r = ref_der(b, B);
+            let out = m.call(|| <Uint<B, L> as der::Decode>::from_der(b));
+            if let Some(v) = judge(m, "", &r, out) {
+                reencode_check(m, "", &r, b, &enc_der(&be_min(v.as_limbs())));
+            }
+        }
+        "der.anyref" | "der.any" => {
+            let c = a[0].b();
+            let tagb = a[1].n() as u8;
+            let Ok(tag) = der::Tag::try_from(tagb) else {
+                m.nontrivial(false);
+                return;
+            };
+            m.nontrivial(c.len() >= 2);
+            let r = if tagb == 0x02 { ref_der_content(c, B) } else { Ref::Reject("wrong-tag") };
+            if op == "der.anyref" {
+                let Ok(any) = AnyRef::new(tag, c) else {
+                    m.nontrivial(false);
+                    return;
+                };
+                let out = m.call(|| <Uint<B, L> as TryFrom<AnyRef<'_>>>::try_from(any));
+                if let Some(v) = judge(m, "", &r, out) {
+                    reencode_check(m, "", &r, c, &der_content(&be_min(v.as_limbs())));
+                }
+            } else {
+                let Ok(any) = Any::new(tag, c.to_vec()) else {
+                    m.nontrivial(false);
+                    return;
+                };
+                let out = m.call(|| <Uint<B, L> as TryFrom<&Any>>::try_from(&any));
+                if let Some(v) = judge(m, "ref", &r, out) {
+                    reencode_check(m, "ref", &r, c, &der_content(&be_min(v.as_limbs())));
+                }
+                let out = m.call(|| <Uint<B, L> as TryFrom<Any>>::try_from(any));
+                judge(m, "owned", &r, out);
+            }
+        }
+        "der.intref" | "der.int" => {
+            // Signed INTEGER object: contents are two's complement big endian.
+            let c = a[0].b();
+            m.nontrivial(c.len() >= 2);
+            let r = ref_der_content(c, B);
+            if op == "der.intref" {
+                let Ok(obj) = IntRef::new(c) else {
+                    m.nontrivial(false);
+                    return;
+                };
+                let held = obj.as_bytes().to_vec();
+                let out = m.call(|| <Uint<B, L> as TryFrom<IntRef<'_>>>::try_from(obj));
+                if let Some(v) = judge(m, "", &r, out) {
+                    reencode_check(m, "", &r, &held, &der_content(&be_min(v.as_limbs())));
+                }
+            } else {
+                let Ok(obj) = Int::new(c) else {
+                    m.nontrivial(false);
+                    return;
+                };
+                let held = obj.as_bytes().to_vec();
+                let out = m.call(|| <Uint<B, L> as TryFrom<&Int>>::try_from(&obj));
+                if let Some(v) = judge(m, "ref", &r, out) {
+                    reencode_check(m, "ref", &r, &held, &der_content(&be_min(v.as_limbs())));
+                }
+                let out = m.call(|| <Uint<B, L> as TryFrom<Int>>::try_from(obj));
+                judge(m, "owned", &r, out);
+            }
+        }
+        "der.uintref" | "der.uint" => {
+            // Unsigned INTEGER object: magnitude bytes, big endian.
+            let c = a[0].b();
+            m.nontrivial(c.len() >= 2);
+            let r = if c.is_empty() { Ref::Reject("empty-content") } else { rv_be(c, B) };
+            let minimal = |v: &Uint<B, L>| {
+                let p = be_min(v.as_limbs());
+                if p.is_empty() {
+                    vec![0]
+                } else {
+                    p
+                }
+            };
+            if op == "der.uintref" {
+                let Ok(obj) = UintRef::new(c) else {
+                    m.nontrivial(false);
+                    return;
+                };
+                let held = obj.as_bytes().to_vec();
+                let out = m.call(|| <Uint<B, L> as TryFrom<UintRef<'_>>>::try_from(obj));
+                if let Some(v) = judge(m, "", &r, out) {
+                    reencode_check(m, "", &r, &held, &minimal(&v));
+                }
+            } else {
+                let Ok(obj) = DerUint::new(c) else {
+                    m.nontrivial(false);
+                    return;
+                };
+                let held = obj.as_bytes().to_vec();
+                let out = m.call(|| <Uint<B, L> as TryFrom<&DerUint>>::try_from(&obj));
+                if let Some(v) = judge(m, "ref", &r, out) {
+                    reencode_check(m, "ref", &r, &held, &minimal(&v));
+                }
+                let out = m.call(|| <Uint<B, L> as TryFrom<DerUint>>::try_from(obj));
+                judge(m, "owned", &r, out);
+            }
+        }
+        // ---- num-bigint ---------------------------------------------------------
+        "biguint.try_from" => {
+            let le = a[0].b();
+            m.nontrivial(le.len() >= 2);
+            let r = rv_le(le, B);
+            let x = BigUint::from_bytes_le(le);
+            let out = m.call(|| <Uint<B, L> as TryFrom<&BigUint>>::try_from(&x));
+            let out = payload_canonical(m, out);
+            judge(m, "ref", &r, out);
+            let out = m.call(|| <Uint<B, L> as TryFrom<BigUint>>::try_from(x));
+            let out = payload_canonical(m, out);
+            judge(m, "owned", &r, out);
+        }
+        "bigint.try_from" => {
+            let le = a[0].b();
+            let minus = a[1].n() == 1;
+            m.nontrivial(le.len() >= 2);
+            let mag = BigUint::from_bytes_le(le);
+            let r = if minus && mag != BigUint::default() { Ref::Reject("negative") } else { rv(&mag, B) };
+            let x = BigInt::from_bytes_le(if minus { Sign::Minus } else { Sign::Plus }, le);
+            let out = m.call(|| <Uint<B, L> as TryFrom<&BigInt>>::try_from(&x));
+            let out = payload_canonical(m, out);
+            judge(m, "ref", &r, out);
+            let out = m.call(|| <Uint<B, L> as TryFrom<BigInt>>::try_from(x));
+            let out = payload_canonical(m, out);
+            judge(m, "owned", &r, out);
+        }
+        // ---- postgres -----------------------------------------------------------
+        _ if op.starts_with("postgres.") => {
+            let name = &op["postgres.".len()..];
+            let raw = a[0].b();
+            m.nontrivial(raw.len() >= 2);
+            let ty = pg_type(name);
+            let r = ref_pg(name, raw, B);
+            let out = m.call(|| <Uint<B, L> as postgres_types::FromSql>::from_sql(&ty, raw));
+            judge(m, "", &r, out);
+        }
+        _ => panic!("harness: unknown op {op}"),
+    }
+}
+
+/// The `Uint` carried inside a conversion error is a produced value too.
+fn payload_canonical<const B: usize, const L: usize>(
+    m: &mut Mon,
+    out: Result<Result<Uint<B, L>, ruint::ToUintError<Uint<B, L>>>, Panic>,
+) -> Result<Result<Uint<B, L>, ruint::ToUintError<Uint<B, L>>>, Panic> {
+    if let Ok(Err(ruint::ToUintError::ValueTooLarge(_, n) | ruint::ToUintError::ValueNegative(_, n))) = &out {
+        m.canonical(n);
+    }
+    out
+}
+
+// ---------------------------------------------------------------------------
+// Input generation
+// ---------------------------------------------------------------------------
+
+fn ab(v: &[u8]) -> Arg {
+    Arg::B(v.to_vec())
+}
+
+fn asr(s: &str) -> Arg {
+    Arg::S(s.to_string())
+}
+
+fn p2(k: usize) -> BigUint {
+    BigUint::from(1u8) << k
+}
+
+fn mag_bytes(v: &BigUint, by: usize) -> Vec<u8> {
+    let b = v.to_bytes_be();
+    pad_be(strip0(&b), by)
+}
+
+/// Boundary / hostile magnitudes (big endian, at least BYTES long), in range
+/// and out of range, including every excess high bit above BITS.
+fn key_mags(bits: usize) -> Vec<Vec<u8>> {
+    let by = (bits + 7) / 8;
+    let mut out: Vec<Vec<u8>> = vec![];
+    let mut push = |v: BigUint| {
+        let b = mag_bytes(&v, by);
+        if !out.contains(&b) {
+            out.push(b);
+        }
+    };
+    for x in [0u64, 1, 2, 55, 56, 63, 64, 127, 128, 255, 256, 16383, 16384, 65535, (1 << 30) - 1, 1 << 30, u32::MAX as u64, 1 << 32, u64::MAX] {
+        push(BigUint::from(x));
+    }
+    let one = BigUint::from(1u8);
+    let max = p2(bits) - &one;
+    push(max.clone());
+    if bits > 0 {
+        push(&max - &one);
+        push(p2(bits - 1));
+        push(p2(bits - 1) - &one);
+    }
+    push(p2(bits));
+    push(p2(bits) + &one);
+    for e in bits..8 * by {
+        push(p2(e));
+        push(p2(e) | &max);
+        push(p2(e) | &one);
+    }
+    push(p2(8 * by) - &one);
+    push(p2(8 * by));
+    push(p2(8 * by + 8) - &one);
+    push(p2(8 * by + 63));
+    out
+}
+
+/// Field-independent single mutations of a valid encoding.
+fn generic_muts(enc: &[u8], out: &mut Vec<Vec<u8>>) {
+    out.push(enc.to_vec());
+    for k in 0..enc.len() {
+        out.push(enc[..k].to_vec());
+    }
+    for t in [&[0u8][..], &[0xff], &[0x80, 0x00], &[1, 2, 3]] {
+        out.push(cat(&[enc, t]));
+    }
+    let n = enc.len();
+    let mut pos: Vec<usize> = (0..n.min(10)).collect();
+    for p in n.saturating_sub(2)..n {
+        if !pos.contains(&p) {
+            pos.push(p);
+        }
+    }
+    for p in pos {
+        for d in 0..3 {
+            let mut e = enc.to_vec();
+            e[p] = match d {
+                0 => e[p].wrapping_add(1),
+                1 => e[p].wrapping_sub(1),
+                _ => e[p] ^ 0x80,
+            };
+            out.push(e);
+        }
+    }
+}
+
+#[derive(Clone, Copy, PartialEq, Debug)]
+enum Fam {
+    Rlp,
+    Der,
+    DerContent,
+    ScaleFixed,
+    ScaleCompact,
+    Bincode,
+    Le,
+    Be,
+    Varbit,
+    Numeric,
+}
+
+const FAMILIES: &[Fam] = &[
+    Fam::Rlp,
+    Fam::Der,
+    Fam::DerContent,
+    Fam::ScaleFixed,
+    Fam::ScaleCompact,
+    Fam::Bincode,
+    Fam::Le,
+    Fam::Be,
+    Fam::Varbit,
+    Fam::Numeric,
+];
+
+fn fam_ops(f: Fam) -> &'static [&'static str] {
+    match f {
+        Fam::Rlp => &["rlp", "rlp.bits", "alloy_rlp", "fastrlp03", "fastrlp04"],
+        Fam::Der => &["der"],
+        Fam::DerContent => &["der.intref", "der.int", "der.uintref", "der.uint"],
+        Fam::ScaleFixed => &["scale.fixed"],
+        Fam::ScaleCompact => &["scale.compact"],
+        Fam::Bincode => &["bincode", "bincode.bits"],
+        Fam::Le => &["try_from_le_slice", "ssz", "borsh", "borsh.bits"],
+        Fam::Be => &["try_from_be_slice", "postgres.BYTEA"],
+        Fam::Varbit => &["postgres.BIT", "postgres.VARBIT"],
+        Fam::Numeric => &["postgres.NUMERIC"],
+    }
+}
+
+fn emit(m: &mut Mon, f: Fam, bits: usize, v: &[u8]) {
+    for op in fam_ops(f) {
+        m.case(op, bits, vec![ab(v)]);
+    }
+    if f == Fam::DerContent {
+        m.case("der.anyref", bits, vec![ab(v), Arg::N(2)]);
+        m.case("der.any", bits, vec![ab(v), Arg::N(2)]);
+    }
+}
+
+fn varbit_canon(bits: usize, mag: &[u8]) -> Vec<u8> {
+    let v = BigUint::from_bytes_be(mag);
+    if big::fits(&v, bits) {
+        let by = (bits + 7) / 8;
+        let body = mag_bytes(&(v << (8 * by - bits)), by);
+        enc_varbit(bits as i32, &body)
+    } else {
+        // over-range: a bit string as wide as the magnitude
+        enc_varbit((8 * mag.len()) as i32, mag)
+    }
+}
+
+fn numeric_canon(mag: &[u8]) -> Vec<u8> {
+    let (ds, w) = numeric_digits(&BigUint::from_bytes_be(mag));
+    numeric_raw(ds.len() as i16, w, 0, 0, &ds)
+}
+
+/// Canonical encoding of a magnitude (which may be out of range) in a family.
+fn fam_canon(f: Fam, bits: usize, mag: &[u8]) -> Vec<u8> {
+    let by = (bits + 7) / 8;
+    let fixed = pad_be(strip0(mag), by);
+    match f {
+        Fam::Rlp => enc_rlp(mag),
+        Fam::Der => enc_der(mag),
+        Fam::DerContent => der_content(mag),
+        Fam::ScaleFixed => enc_scale_fixed(&rev(&fixed)),
+        Fam::ScaleCompact => enc_scale_compact(mag).unwrap_or_else(|| vec![0xff]),
+        Fam::Bincode => enc_bincode(&fixed),
+        Fam::Le => rev(&fixed),
+        Fam::Be => fixed,
+        Fam::Varbit => varbit_canon(bits, mag),
+        Fam::Numeric => numeric_canon(mag),
+    }
+}
+
+/// Valid encoding plus single-field mutations (`full`), or just the encoding.
+fn fam_variants(f: Fam, bits: usize, mag: &[u8], full: bool) -> Vec<Vec<u8>> {
+    let by = (bits + 7) / 8;
+    let canon = fam_canon(f, bits, mag);
+    let mut out = vec![];
+    if !full {
+        out.push(canon.clone());
+        if !canon.is_empty() {
+            out.push(canon[..canon.len() - 1].to_vec());
+        }
+        out.push(cat(&[&canon, &[0]]));
+        return out;
+    }
+    generic_muts(&canon, &mut out);
+    let p = strip0(mag);
+    let fixed = pad_be(p, by);
+    match f {
+        Fam::Rlp => {
+            // leading zeros inserted
+            out.push(rlp_string(&cat(&[&[0], p]), 0x80));
+            out.push(rlp_string(&fixed, 0x80));
+            out.push(rlp_string(&cat(&[&[0u8; 8], &fixed]), 0x80));
+            // single byte below 0x80 in string form; zero as 0x00 / 0x8100
+            if p.len() == 1 && p[0] < 0x80 {
+                out.push(vec![0x81, p[0]]);
+            }
+            if p.is_empty() {
+                out.push(vec![0x00]);
+                out.push(vec![0x81, 0x00]);
+            }
+            // long form for a short payload, length-of-length with leading zero
+            let l = p.len().min(255) as u8;
+            if p.len() < 56 {
+                out.push(cat(&[&[0xb8, l], p]));
+                out.push(cat(&[&[0xb9, 0, l], p]));
+                out.push(cat(&[&[0xbf, 0, 0, 0, 0, 0, 0, 0, l], p]));
+            } else {
+                out.push(cat(&[&[0xb9, 0, l], p]));
+                out.push(cat(&[&[0xb7], p]));
+            }
+            // list <-> string tag
+            out.push(rlp_string(p, 0xc0));
+            if p.len() < 56 {
+                out.push(cat(&[&[0xf8, l], p]));
+            }
+            if canon.len() < 56 {
+                out.push(cat(&[&[0xc0 + canon.len() as u8], &canon]));
+            }
+        }
+        Fam::Der => {
+            let c = der_content(mag);
+            let body = &canon[1..];
+            for t in [0x00u8, 0x01, 0x03, 0x04, 0x0a, 0x22, 0x30, 0x42, 0x82, 0xa2, 0x1f, 0xff] {
+                out.push(cat(&[&[t], body]));
+            }
+            // sign byte removed / superfluous sign bytes
+            if c.len() >= 2 && c[0] == 0 {
+                out.push(cat(&[&[0x02], &der_len(c.len() - 1), &c[1..]]));
+            }
+            out.push(cat(&[&[0x02], &der_len(c.len() + 1), &[0], &c]));
+            out.push(cat(&[&[0x02], &der_len(c.len() + 1), &[0xff], &c]));
+            out.push(cat(&[&[0x02], &der_len(fixed.len() + 1), &[0], &fixed]));
+            // indefinite length, non-minimal length octets, reserved 0xff
+            out.push(cat(&[&[0x02, 0x80], &c, &[0, 0]]));
+            out.push(cat(&[&[0x02, 0x80], &c]));
+            let l = c.len().min(255) as u8;
+            out.push(cat(&[&[0x02, 0x81, l], &c]));
+            out.push(cat(&[&[0x02, 0x82, 0, l], &c]));
+            out.push(cat(&[&[0x02, 0x84, 0, 0, 0, l], &c]));
+            out.push(cat(&[&[0x02, 0x85, 0, 0, 0, 0, l], &c]));
+            out.push(cat(&[&[0x02, 0x88, 0, 0, 0, 0, 0, 0, 0, l], &c]));
+            out.push(cat(&[&[0x02, 0xff], &c]));
+            out.push(vec![0x02, 0x00]);
+            // nested: INTEGER inside a SEQUENCE
+            if canon.len() < 0x80 {
+                out.push(cat(&[&[0x30, canon.len() as u8], &canon]));
+            }
+        }
+        Fam::DerContent => {
+            if canon.len() >= 2 && canon[0] == 0 {
+                out.push(canon[1..].to_vec());
+            }
+            out.push(cat(&[&[0], &canon]));
+            out.push(cat(&[&[0, 0], &canon]));
+            out.push(cat(&[&[0xff], &canon]));
+            out.push(cat(&[&[0], &fixed]));
+            out.push(fixed.clone());
+        }
+        Fam::ScaleFixed => {
+            let le = rev(&fixed);
+            let lemin = rev(p);
+            // shorter / longer byte vectors denoting the same value
+            out.push(enc_scale_fixed(&lemin));
+            out.push(enc_scale_fixed(&cat(&[&le, &[0]])));
+            out.push(enc_scale_fixed(&cat(&[&le, &[0u8; 8]])));
+            out.push(enc_scale_fixed(&cat(&[&le, &[1]])));
+            // non-canonical and hostile length prefixes
+            let n = le.len() as u32;
+            if n < 64 {
+                out.push(cat(&[&(((n as u16) << 2) | 1).to_le_bytes(), &le]));
+            }
+            out.push(cat(&[&((n << 2) | 2).to_le_bytes(), &le]));
+            out.push(cat(&[&[0x03], &n.to_le_bytes(), &le]));
+            out.push(cat(&[&[0x07], &n.to_le_bytes(), &[0], &le]));
+            out.push(cat(&[&[0xfe, 0xff, 0xff, 0xff], &le]));
+            out.push(cat(&[&[0x03, 0xff, 0xff, 0xff, 0xff], &le]));
+            out.push(cat(&[&[0x13, 0xff, 0xff, 0xff, 0xff, 0xff, 0xff, 0xff, 0xff], &le]));
+            out.push(cat(&[&[0xff], &le]));
+        }
+        Fam::ScaleCompact => {
+            let lemin = rev(p);
+            // non-minimal modes for the same value
+            if p.len() <= 1 && p.first().copied().unwrap_or(0) < 64 {
+                let x = u32::from(p.first().copied().unwrap_or(0));
+                out.push((((x as u16) << 2) | 1).to_le_bytes().to_vec());
+                out.push(((x << 2) | 2).to_le_bytes().to_vec());
+            }
+            if lemin.len() <= 4 {
+                let mut q = lemin.clone();
+                q.resize(4, 0);
+                out.push(cat(&[&[0x03], &q]));
+            }
+            // big-integer mode with 4..=67 bytes: exact, zero-extended, special arms
+            for n in [4usize, 5, 7, 8, 9, 15, 16, 17, by, by + 1, 67] {
+                if n >= lemin.len() && (4..=67).contains(&n) {
+                    let mut q = lemin.clone();
+                    q.resize(n, 0);
+                    out.push(cat(&[&[(((n - 4) as u8) << 2) | 3], &q]));
+                }
+            }
+            // full-width payload with every byte 0xff in the arms that decode primitives
+            for n in [4usize, 8, 16] {
+                out.push(cat(&[&[(((n - 4) as u8) << 2) | 3], &vec![0xff; n]]));
+            }
+            out.push(cat(&[&[0xff], &vec![0xff; 67]]));
+        }
+        Fam::Bincode => {
+            let pl = |len: u64, body: &[u8]| cat(&[&len.to_le_bytes(), body]);
+            out.push(pl(by as u64 + 1, &fixed));
+            out.push(pl((by as u64).wrapping_sub(1), &fixed));
+            out.push(enc_bincode(p));
+            out.push(enc_bincode(&cat(&[&[0], &fixed])));
+            out.push(enc_bincode(&cat(&[&[0u8; 8], &fixed])));
+            out.push(pl(0, &fixed));
+            out.push(pl(1 << 32, &fixed));
+            out.push(pl(1 << 63, &fixed));
+            out.push(pl(u64::MAX, &fixed));
+            out.push(pl(u64::MAX - 7, &fixed));
+        }
+        Fam::Le => {
+            out.push(rev(p));
+            out.push(cat(&[&rev(&fixed), &[0u8; 8]]));
+            out.push(cat(&[&rev(&fixed), &[1]]));
+        }
+        Fam::Be => {
+            out.push(p.to_vec());
+            out.push(cat(&[&[0], &fixed]));
+            out.push(cat(&[&[0u8; 8], &fixed]));
+            out.push(cat(&[&[1], &fixed]));
+        }
+        Fam::Varbit => {
+            let body = &canon[4..];
+            let n0 = i32::from_be_bytes(canon[..4].try_into().unwrap());
+            for n in [n0 - 1, n0 + 1, n0 + 7, n0 + 8, n0 - 8, 0, 1, 7, 8, 9, -1, i32::MIN, i32::MAX, (8 * body.len()) as i32] {
+                out.push(enc_varbit(n, body));
+            }
+            for n in [1, 7, 8, n0.max(1)] {
+                out.push(enc_varbit(n, &[]));
+            }
+            // padding bits set
+            let pad = (8 - (n0.max(0) as usize) % 8) % 8;
+            if pad > 0 && !body.is_empty() {
+                let mut b2 = body.to_vec();
+                *b2.last_mut().unwrap() |= (1u8 << pad) - 1;
+                out.push(enc_varbit(n0, &b2));
+            }
+            // whole bytes with every excess bit set
+            out.push(enc_varbit((8 * by) as i32, &vec![0xff; by]));
+            out.push(enc_varbit(bits as i32, &vec![0xff; by]));
+        }
+        Fam::Numeric => {
+            let (ds, w) = numeric_digits(&BigUint::from_bytes_be(mag));
+            let nd = ds.len() as i16;
+            for sign in [0x4000u16, 0xc000, 0xd000, 0xf000, 0x0001, 0x8000] {
+                out.push(numeric_raw(nd, w, sign, 0, &ds));
+            }
+            for dscale in [1u16, 2, 0x3fff, 0xffff] {
+                out.push(numeric_raw(nd, w, 0, dscale, &ds));
+            }
+            for nd2 in [nd - 1, nd + 1, -1, i16::MIN, i16::MAX, 0] {
+                out.push(numeric_raw(nd2, w, 0, 0, &ds));
+            }
+            for w2 in [w - 1, w + 1, nd - 2, -1, i16::MIN, i16::MAX, i16::MAX - 1, w + 40] {
+                out.push(numeric_raw(nd, w2, 0, 0, &ds));
+            }
+            for bad in [10000i16, 9999, -1, i16::MIN, i16::MAX] {
+                if !ds.is_empty() {
+                    let mut d2 = ds.clone();
+                    *d2.last_mut().unwrap() = bad;
+                    out.push(numeric_raw(nd, w, 0, 0, &d2));
+                    let mut d2 = ds.clone();
+                    d2[0] = bad;
+                    out.push(numeric_raw(nd, w, 0, 0, &d2));
+                }
+            }
+            // untrimmed trailing zero digits, leading zero digits
+            let mut d2 = ds.clone();
+            d2.push(0);
+            out.push(numeric_raw(nd + 1, w.max(nd), 0, 0, &d2));
+            let mut d2 = vec![0i16];
+            d2.extend_from_slice(&ds);
+            out.push(numeric_raw(nd + 1, w + 1, 0, 0, &d2));
+            // zero with hostile weights
+            for w2 in [0i16, 1, -1, 100, i16::MAX - 1, i16::MAX, i16::MIN] {
+                out.push(numeric_raw(0, w2, 0, 0, &[]));
+            }
+        }
+    }
+    out
+}
+
+fn rand_bytes(r: &mut Rng, n: usize) -> Vec<u8> {
+    match r.below(6) {
+        0 => vec![0xff; n],
+        1 => vec![0; n],
+        2 => (0..n).map(|_| *r.pick(&[0u8, 1, 2, 0x7f, 0x80, 0x81, 0xb7, 0xb8, 0xc0, 0xf8, 0xff])).collect(),
+        _ => r.bytes(n),
+    }
+}
+
+/// One random mutation of an encoding, biased towards the header.
+fn mutate_random(r: &mut Rng, enc: &[u8]) -> Vec<u8> {
+    let mut e = enc.to_vec();
+    let n = e.len();
+    if n == 0 {
+        let k = r.range(0, 2);
+        return rand_bytes(r, k);
+    }
+    let p = if r.bool() { r.below(n.min(4)) } else { r.below(n) };
+    match r.below(10) {
+        0 => e.truncate(r.below(n)),
+        1 => {
+            let k = r.range(1, 4);
+            e.extend(rand_bytes(r, k));
+        }
+        2 => e[p] ^= 1 << r.below(8),
+        3 => e[p] = *r.pick(&[0u8, 1, 0x7f, 0x80, 0x81, 0xff]),
+        4 => e[p] = e[p].wrapping_add(1),
+        5 => e[p] = e[p].wrapping_sub(1),
+        6 => e.insert(p, 0),
+        7 => e.insert(p, *r.pick(&[0xffu8, 0x80, 0x01])),
+        8 => {
+            e.remove(p);
+        }
+        _ => {
+            let q = r.below(n);
+            e.swap(p, q);
+        }
+    }
+    e
+}
+
+/// Random hostile magnitude: in range, with an excess high bit, longer, or
+/// with leading zeros.
+fn hostile_mag(r: &mut Rng, bits: usize) -> Vec<u8> {
+    let by = (bits + 7) / 8;
+    let base = pad_be(&be_min(&gen::hostile(r, bits)), by);
+    match r.below(8) {
+        0 | 1 => {
+            let mut v = base;
+            if 8 * by > bits {
+                let e = r.range(bits, 8 * by - 1);
+                v[0] |= 1 << (e - 8 * (by - 1));
+                v
+            } else {
+                cat(&[&[*r.pick(&[1u8, 0x7f, 0x80, 0xff])], &v])
+            }
+        }
+        2 => cat(&[&[*r.pick(&[1u8, 0x7f, 0x80, 0xff])], &base]),
+        3 => cat(&[&vec![0u8; r.range(1, 9)], &base]),
+        _ => base,
+    }
+}
+
+// ---------------------------------------------------------------------------
+// Text inputs
+// ---------------------------------------------------------------------------
+
+const B64: &[u8; 64] = b"ABCDEFGHIJKLMNOPQRSTUVWXYZabcdefghijklmnopqrstuvwxyz0123456789+/";
+
+fn fmt_radix(v: &BigUint, radix: u32) -> String {
+    if radix <= 36 {
+        v.to_str_radix(radix)
+    } else {
+        v.to_radix_be(radix).iter().map(|&d| B64[d as usize] as char).collect()
+    }
+}
+
+fn emit_text(m: &mut Mon, bits: usize, s: &str) {
+    m.case("from_str", bits, vec![asr(s)]);
+    m.case("serde.str", bits, vec![asr(s)]);
+    for op in ["postgres.TEXT", "postgres.VARCHAR", "postgres.CHAR", "postgres.JSON"] {
+        m.case(op, bits, vec![ab(s.as_bytes())]);
+    }
+    let q = format!("\"{s}\"");
+    m.case("postgres.JSON", bits, vec![ab(q.as_bytes())]);
+    m.case("postgres.JSONB", bits, vec![ab(&cat(&[&[1], q.as_bytes()]))]);
+    m.case("postgres.JSONB", bits, vec![ab(&cat(&[&[1], s.as_bytes()]))]);
+    m.case("serde_json.str", bits, vec![asr(&q)]);
+    m.case("serde_json.slice", bits, vec![ab(q.as_bytes())]);
+    m.case("serde_json.value", bits, vec![asr(&q)]);
+}
+
+fn emit_json_doc(m: &mut Mon, bits: usize, doc: &[u8]) {
+    if let Ok(s) = std::str::from_utf8(doc) {
+        m.case("serde_json.str", bits, vec![asr(s)]);
+        m.case("serde_json.value", bits, vec![asr(s)]);
+    }
+    m.case("serde_json.slice", bits, vec![ab(doc)]);
+    m.case("postgres.JSON", bits, vec![ab(doc)]);
+    m.case("postgres.JSONB", bits, vec![ab(&cat(&[&[1], doc]))]);
+}
+
+const SPECIAL_TEXT: &[&str] = &[
+    "", "0", "1", "_", "__", "0_", "_0", "0x", "0X", "0o", "0O", "0b", "0B", "0x_", "x", "00", "0x0", "0x00",
+    "0b2", "0o8", "0xg", "0xG", "0x:", "0x/", "0x@", "0x`", "0x{", "0x[", "é", "0é", "0xé", "€", "0€", "0x€1",
+    "\u{0}", "0\u{0}", "١٢٣", "０", "１", "𝟘", "1e3", "1E3", "1.0", "1.", ".1", "-1", "+1", "-0", "+0", " 1",
+    "1 ", "\t1", "1\n", "0x 1", "0x-1", "0x+1", "0x0x1", "0b0x1", "0B1", "0O7", "0x1_", "0x_1", "1__2",
+    "\"", "\"\"", "\"1", "1\"", "\"0x1", "'1'", "0x\"1\"", "\u{200b}1", "1\u{200b}", "\u{feff}1", "a", "A", "z",
+    "Z", "ff", "FF", "0xff", "0xFF", "0XfF", "0b1", "0b0", "0o7", "0b", "0d1", "0h1", "#1", "$1", "1,000", "1_000",
+    "1 000", "null", "true", "NaN", "inf",
+];
+
+fn text_corpus(bits: usize, mags: &[Vec<u8>]) -> Vec<String> {
+    let mut out: Vec<String> = SPECIAL_TEXT.iter().map(|s| s.to_string()).collect();
+    for (i, mag) in mags.iter().enumerate() {
+        let v = BigUint::from_bytes_be(mag);
+        let forms = [format!("{v}"), format!("0x{v:x}"), format!("0X{v:X}"), format!("0o{v:o}"), format!("0b{v:b}")];
+        out.extend(forms.iter().cloned());
+        if i >= 24 && i % 4 != 0 {
+            continue;
+        }
+        for s in &forms[..2] {
+            let n = s.len();
+            for pos in [0usize, 1, 2, n / 2, n] {
+                for ins in ["_", "0", "g", " ", "é", "\"", "-", "x"] {
+                    let mut t = s.clone();
+                    t.insert_str(pos.min(n), ins);
+                    out.push(t);
+                }
+            }
+            out.push(s[..n - 1].to_string());
+            out.push(format!("{s}0"));
+            out.push(format!("{s}\n"));
+            out.push(format!("{s}\u{0}"));
+            out.push(format!(" {s}"));
+            out.push(format!("+{s}"));
+            out.push(format!("-{s}"));
+            out.push(s.to_uppercase());
+            let (pre, dig) = if s.starts_with("0x") { ("0x", &s[2..]) } else { ("", &s[..]) };
+            out.push(format!("{pre}{}{dig}", "0".repeat(64)));
+            out.push(format!("{pre}{}{dig}", "0".repeat(700)));
+            out.push(format!("{pre}{}{dig}", "_".repeat(33)));
+            out.push(format!("{pre}{dig}{}", "_".repeat(33)));
+        }
+    }
+    // very long digit strings
+    let dec_digits = bits * 30103 / 100000 + 1;
+    out.push("9".repeat(dec_digits));
+    out.push("9".repeat(dec_digits + 1));
+    out.push("9".repeat(1000));
+    out.push(format!("1{}", "0".repeat(5000)));
+    out.push(format!("{}1", "0".repeat(10000)));
+    out.push(format!("0x{}", "f".repeat((bits + 3) / 4 + 1)));
+    out.push(format!("0x{}", "f".repeat(4000)));
+    out.push(format!("0x{}1", "0".repeat(10000)));
+    out.push(format!("0b{}", "1".repeat(bits + 1)));
+    out.push(format!("0b{}", "1".repeat(bits)));
+    out.push(format!("0o{}", "7".repeat(bits / 3 + 2)));
+    out.push("_".repeat(3000));
+    out
+}
+
+const TEXT_ALPHABET: &[&str] = &[
+    "0", "1", "2", "7", "8", "9", "a", "f", "A", "F", "g", "z", "x", "X", "o", "b", "B", "_", "\"", " ", "\n", "\t",
+    "+", "-", ".", "e", "é", "١", "０", "\u{0}", "\\", "/", ",", "=", "0x", "0b", "0o", "0X",
+];
+
+fn random_text(r: &mut Rng, bits: usize) -> String {
+    let maxlen = (bits + 3) / 4 + 8;
+    let n = match r.below(6) {
+        0 => r.range(0, 3),
+        1 => r.range(0, maxlen * 4),
+        _ => r.range(0, maxlen),
+    };
+    let mut s = String::new();
+    match r.below(5) {
+        0 => s.push_str("0x"),
+        1 => s.push_str(*r.pick(&["0X", "0o", "0b", "0O", "0B", "\"0x", " ", "+"])),
+        _ => {}
+    }
+    let clean = r.chance(2, 3);
+    for _ in 0..n {
+        if clean && !r.chance(1, 24) {
+            s.push(*r.pick(&['0', '1', '2', '5', '7', '8', '9', 'a', 'c', 'f', 'F', '_']));
+        } else {
+            s.push_str(*r.pick(TEXT_ALPHABET));
+        }
+    }
+    s
+}
+
+const JSON_DOCS: &[&str] = &[
+    "", " ", "0", "1", "2", "255", "256", "65535", "65536", "4294967295", "4294967296", "18446744073709551615",
+    "18446744073709551616", "340282366920938463463374607431768211455", "-1", "-0", "1.0", "1.5", "1e2", "1E2", "1e999",
+    "01", "0x1", "null", "true", "false", "[]", "{}", "[1]", "{\"a\":1}", "\"0x1\" x", " \"0x1\" ", "\n\"0x1\"\n",
+    "\"\\u0030x1\"", "\"0x1\\n\"", "\"0x\\u0031\"", "\"\\ud800\"", "\"\\", "\"", "\"\"", "\"0x1", "0x1\"", "'0x1'",
+    "\"0x1\"\"0x2\"", "\"0x1\",", "[\"0x1\"]", "\"\u{0}\"", "\"é\"", "\"0\"", "\"0x0\"", "\"0x\"", "\"0b\"",
+    "\"0o\"", "\"x\"", "\"_\"",
+];
+
+// ---------------------------------------------------------------------------
+// Workload
+// ---------------------------------------------------------------------------
+
+/// Binary decoders fed with raw byte strings (random and exhaustive sweeps).
+const BIN_OPS: &[&str] = &[
+    "try_from_be_slice", "try_from_le_slice", "bincode", "bincode.bits", "rlp", "rlp.bits", "alloy_rlp", "fastrlp03",
+    "fastrlp04", "scale.fixed", "scale.compact", "ssz", "borsh", "borsh.bits", "der", "der.intref", "der.int",
+    "der.uintref", "der.uint", "biguint.try_from", "postgres.BOOL", "postgres.INT2", "postgres.INT4", "postgres.INT8",
+    "postgres.OID", "postgres.FLOAT4", "postgres.FLOAT8", "postgres.MONEY", "postgres.NUMERIC", "postgres.BYTEA",
+    "postgres.BIT", "postgres.VARBIT", "postgres.TEXT", "postgres.VARCHAR", "postgres.CHAR", "postgres.JSON",
+    "postgres.JSONB", "serde_json.slice", "postgres.TIMESTAMP",
+];
+
+/// Subset swept exhaustively over all 2-byte inputs (one op per distinct code path).
+const SWEEP2_OPS: &[&str] = &[
+    "try_from_be_slice", "try_from_le_slice", "bincode", "rlp", "rlp.bits", "alloy_rlp", "fastrlp03", "fastrlp04",
+    "scale.fixed", "scale.compact", "ssz", "borsh", "der", "der.intref", "der.uintref", "postgres.BOOL",
+    "postgres.INT2", "postgres.INT4", "postgres.INT8", "postgres.OID", "postgres.FLOAT4", "postgres.FLOAT8",
+    "postgres.MONEY", "postgres.NUMERIC", "postgres.BYTEA", "postgres.BIT", "postgres.VARBIT", "postgres.TEXT",
+    "postgres.JSON", "postgres.JSONB",
+];
+
+const PG_FIXED: &[(&str, usize)] = &[
+    ("postgres.BOOL", 1), ("postgres.INT2", 2), ("postgres.INT4", 4), ("postgres.OID", 4), ("postgres.INT8", 8),
+    ("postgres.MONEY", 8), ("postgres.FLOAT4", 4), ("postgres.FLOAT8", 8),
+];
+
+fn fault_offsets(n: usize) -> Vec<usize> {
+    let mut ks: Vec<usize> = (0..=n).filter(|&k| k <= 12 || k + 10 >= n || k % 8 == 0).collect();
+    ks.push(n + 1);
+    ks
+}
+
+fn reader_cases(m: &mut Mon, op: &str, bits: usize, enc: &[u8]) {
+    for flags in 0..8u128 {
+        m.case(op, bits, vec![ab(enc), Arg::N(0), Arg::N(flags)]);
+    }
+    for k in fault_offsets(enc.len()) {
+        for flags in 8..16u128 {
+            m.case(op, bits, vec![ab(enc), Arg::N(k as u128), Arg::N(flags)]);
+        }
+    }
+}
+
+fn pg_int_directed(m: &mut Mon, bits: usize) {
+    let lim: i128 = if bits >= 100 { i128::MAX } else { 1i128 << bits };
+    let mut vals: Vec<i128> = vec![0, 1, 2, -1, -2, 99, 100, 101, -99, -100, -101, 199, 200];
+    let c = lim.saturating_mul(100);
+    for t in [lim - 1, lim, lim.saturating_add(1), (lim - 1).saturating_mul(100), c, c.saturating_add(99), c - 1] {
+        vals.push(t);
+        vals.push(-t);
+    }
+    for k in [7, 8, 15, 16, 31, 32, 63, 64] {
+        vals.extend([(1i128 << k) - 1, 1i128 << k, -(1i128 << k), -(1i128 << k) - 1]);
+    }
+    for &v in &vals {
+        let be = v.to_be_bytes();
+        for &(op, n) in PG_FIXED {
+            m.case(op, bits, vec![ab(&be[16 - n..])]);
+        }
+    }
+    for &(op, n) in PG_FIXED {
+        for len in [0, n - 1, n + 1, 2 * n] {
+            m.case(op, bits, vec![ab(&vec![0u8; len])]);
+            m.case(op, bits, vec![ab(&vec![1u8; len])]);
+        }
+    }
+    for f in [0.0f64, -0.0, 0.49, 0.5, 1.0, 1.5, -1.0, 255.0, 256.0, 2f64.powi(bits.min(1000) as i32),
+        2f64.powi(bits.min(1000) as i32) - 0.5, 1e300, f64::MAX, f64::MIN_POSITIVE, 5e-324, f64::INFINITY,
+        f64::NEG_INFINITY, f64::NAN, 9007199254740993.0] {
+        m.case("postgres.FLOAT8", bits, vec![ab(&f.to_be_bytes())]);
+        m.case("postgres.FLOAT4", bits, vec![ab(&(f as f32).to_be_bytes())]);
+    }
+    for b in [&[][..], &[0], &[1], &[2], &[255], &[0, 0], &[1, 0], &[0, 1]] {
+        m.case("postgres.BOOL", bits, vec![ab(b)]);
+    }
+    for op in ["postgres.TIMESTAMP", "postgres.UUID", "postgres.INT4_ARRAY"] {
+        for b in [&[][..], &[0], &[0, 0, 0, 1], &[0; 8], &[0; 16]] {
+            m.case(op, bits, vec![ab(b)]);
+        }
+    }
+}
+
+fn workload(m: &mut Mon, bits: usize) {
+    let by = (bits + 7) / 8;
+    let keys = key_mags(bits);
+    let bd: Vec<Vec<u8>> = gen::boundary(bits).iter().map(|l| pad_be(&be_min(l), by)).collect();
+
+    // (a) valid encodings of boundary / hostile values with one field mutated.
+    for (i, mag) in keys.iter().chain(bd.iter()).enumerate() {
+        let full = i < keys.len();
+        for &f in FAMILIES {
+            if !m.keep() {
+                continue;
+            }
+            for v in fam_variants(f, bits, mag, full) {
+                emit(m, f, bits, &v);
+            }
+        }
+        if m.keep() {
+            let le = rev(mag);
+            m.case("biguint.try_from", bits, vec![ab(&le)]);
+            m.case("bigint.try_from", bits, vec![ab(&le), Arg::N(0)]);
+            m.case("bigint.try_from", bits, vec![ab(&le), Arg::N(1)]);
+        }
+        if m.time_up() {
+            return;
+        }
+    }
+    // DER objects with foreign tags.
+    for tag in [0u128, 1, 2, 3, 4, 5, 6, 0x0a, 0x0c, 0x1f, 0x22, 0x30, 0x31, 0x42, 0x80, 0x82, 0xa2, 0xc2, 0xff] {
+        for c in [&[][..], &[0], &[1], &[0x7f], &[0x80], &[0, 0x80], &[0, 1], &[0xff, 0xff]] {
+            if !m.keep() {
+                continue;
+            }
+            m.case("der.anyref", bits, vec![ab(c), Arg::N(tag)]);
+            m.case("der.any", bits, vec![ab(c), Arg::N(tag)]);
+        }
+    }
+    if m.keep() {
+        pg_int_directed(m, bits);
+    }
+    // serde integer visitors.
+    for k in [0usize, 1, 7, 8, 9, 16, 60, 63, 64, 65, 124, 127, 128] {
+        for d in [-1i32, 0, 1] {
+            if !m.keep() || k > 128 {
+                continue;
+            }
+            let x: u128 = if k == 128 { u128::MAX } else { 1u128 << k };
+            let x = if d < 0 { x.wrapping_sub(1) } else { x.wrapping_add(d as u128) };
+            m.case("serde.u128", bits, vec![Arg::N(x)]);
+            m.case("serde.u64", bits, vec![Arg::N(x & u128::from(u64::MAX))]);
+        }
+    }
+
+    // Fault injection: readers that deliver one byte at a time, interrupt, end
+    // or fail at each offset.
+    for (i, mag) in keys.iter().enumerate() {
+        if i % 3 != 0 && i + 8 < keys.len() {
+            continue;
+        }
+        if !m.keep() {
+            continue;
+        }
+        reader_cases(m, "borsh.reader", bits, &fam_canon(Fam::Le, bits, mag));
+        reader_cases(m, "bincode.reader", bits, &fam_canon(Fam::Bincode, bits, mag));
+        reader_cases(m, "scale.fixed.input", bits, &fam_canon(Fam::ScaleFixed, bits, mag));
+        reader_cases(m, "scale.compact.input", bits, &fam_canon(Fam::ScaleCompact, bits, mag));
+        if m.time_up() {
+            return;
+        }
+    }
+    for flags in 0..16u128 {
+        // hostile length prefixes through the faulty inputs (bounded for the bincode reader)
+        let le = vec![0xffu8; by];
+        if !m.keep() {
+            continue;
+        }
+        m.case("scale.fixed.input", bits, vec![ab(&cat(&[&[0xfe, 0xff, 0xff, 0xff], &le])), Arg::N(3), Arg::N(flags)]);
+        m.case("scale.fixed.input", bits, vec![ab(&cat(&[&[0x03, 0xff, 0xff, 0xff, 0xff], &le])), Arg::N(7), Arg::N(flags)]);
+        m.case("bincode.reader", bits, vec![ab(&cat(&[&4096u64.to_le_bytes(), &le])), Arg::N(9), Arg::N(flags)]);
+        m.case("bincode.reader", bits, vec![ab(&cat(&[&(by as u64 + 1).to_le_bytes(), &le])), Arg::N(8 + by as u128), Arg::N(flags)]);
+    }
+
+    // (b) every 1-byte and every 2-byte input, exhaustively.
+    if m.is_light() {
+        let mut r = m.stream("c17.sweep.light", bits);
+        for _ in 0..m.iters(48) {
+            let k = r.range(0, 2);
+            let b = r.bytes(k);
+            for op in BIN_OPS {
+                m.case(op, bits, vec![ab(&b)]);
+            }
+        }
+    } else {
+        for op in BIN_OPS {
+            m.case(op, bits, vec![ab(&[])]);
+            for x in 0..=255u8 {
+                m.case(op, bits, vec![ab(&[x])]);
+            }
+        }
+        m.mark_exhaustive(format!("all 0- and 1-byte inputs for {} binary decoder entry points at BITS={bits}", BIN_OPS.len()));
+        let mut complete = true;
+        'sweep: for op in SWEEP2_OPS {
+            for x in 0..=255u8 {
+                if m.time_up() {
+                    complete = false;
+                    break 'sweep;
+                }
+                for y in 0..=255u8 {
+                    m.case(op, bits, vec![Arg::B(vec![x, y])]);
+                }
+            }
+        }
+        if complete {
+            m.mark_exhaustive(format!("all 2-byte inputs for {} binary decoder entry points at BITS={bits}", SWEEP2_OPS.len()));
+        }
+    }
+
+    // (c) random byte strings up to BYTES+16 and randomly mutated encodings.
+    let mut r = m.stream("c17.random", bits);
+    for i in 0..m.iters(1000) {
+        if i % 128 == 0 && m.time_up() {
+            return;
+        }
+        let len = match r.below(8) {
+            0 => r.range(0, 3),
+            1 => by,
+            2 => by + 1,
+            3 => by.saturating_sub(1),
+            _ => r.range(0, by + 16),
+        };
+        let b = rand_bytes(&mut r, len);
+        for op in BIN_OPS {
+            m.case(op, bits, vec![ab(&b)]);
+        }
+        m.case("bigint.try_from", bits, vec![ab(&b), Arg::N(r.below(2) as u128)]);
+        m.case("der.anyref", bits, vec![ab(&b), Arg::N(if r.chance(3, 4) { 2 } else { r.below(256) as u128 })]);
+        for &(op, n) in PG_FIXED {
+            let x = rand_bytes(&mut r, n);
+            m.case(op, bits, vec![ab(&x)]);
+        }
+        let mag = hostile_mag(&mut r, bits);
+        for &f in FAMILIES {
+            let canon = fam_canon(f, bits, &mag);
+            let mu = mutate_random(&mut r, &canon);
+            emit(m, f, bits, &mu);
+            if i % 4 == 0 {
+                emit(m, f, bits, &canon);
+            }
+        }
+        if i % 8 == 0 {
+            let le = rev(&mag);
+            let k = r.range(0, le.len() + 9);
+            let flags = r.below(16) as u128;
+            m.case("borsh.reader", bits, vec![ab(&mutate_random(&mut r, &le)), Arg::N(k as u128), Arg::N(flags)]);
+            let mut e = mutate_random(&mut r, &enc_bincode(&pad_be(strip0(&mag), by)));
+            if e.len() >= 8 && u64::from_le_bytes(e[..8].try_into().unwrap()) > 4096 {
+                e[1..8].fill(0); // keep declared lengths small for bincode's reader path
+            }
+            m.case("bincode.reader", bits, vec![ab(&e), Arg::N(k as u128), Arg::N(flags)]);
+            let e = mutate_random(&mut r, &fam_canon(Fam::ScaleFixed, bits, &mag));
+            m.case("scale.fixed.input", bits, vec![ab(&e), Arg::N(k as u128), Arg::N(flags)]);
+            let e = mutate_random(&mut r, &fam_canon(Fam::ScaleCompact, bits, &mag));
+            m.case("scale.compact.input", bits, vec![ab(&e), Arg::N(k as u128), Arg::N(flags)]);
+        }
+        // digit sequences
+        if i % 4 == 0 {
+            let base = *r.pick(&[0u64, 1, 2, 3, 10, 16, 255, 256, 10000, 1 << 32, u64::MAX, u64::MAX - 1]);
+            let n = r.range(0, if base < 16 { bits + 3 } else { by / 2 + 3 });
+            let digits: Vec<u64> = (0..n)
+                .map(|_| match r.below(12) {
+                    0 => base,
+                    1 => u64::MAX,
+                    2 | 3 => 0,
+                    4 => base.wrapping_sub(1),
+                    _ => r.u64() % base.max(1),
+                })
+                .collect();
+            m.case("from_base_be", bits, vec![Arg::U(digits.clone()), Arg::N(u128::from(base))]);
+            m.case("from_base_le", bits, vec![Arg::U(digits), Arg::N(u128::from(base))]);
+        }
+    }
+
+    // Text decoders.
+    let mut tm: Vec<Vec<u8>> = keys.clone();
+    tm.extend(bd.iter().step_by(6).cloned());
+    for s in text_corpus(bits, &tm) {
+        if !m.keep() {
+            continue;
+        }
+        emit_text(m, bits, &s);
+    }
+    if m.time_up() {
+        return;
+    }
+    for d in JSON_DOCS {
+        if m.keep() {
+            emit_json_doc(m, bits, d.as_bytes());
+        }
+    }
+    for mag in keys.iter() {
+        if !m.keep() {
+            continue;
+        }
+        let v = BigUint::from_bytes_be(mag);
+        emit_json_doc(m, bits, format!("{v}").as_bytes());
+        emit_json_doc(m, bits, format!("-{v}").as_bytes());
+        emit_json_doc(m, bits, format!("{v}.0").as_bytes());
+        emit_json_doc(m, bits, format!("[\"{v}\"]").as_bytes());
+        let q = format!("\"0x{v:x}\"");
+        for ver in [0u8, 2, 255] {
+            m.case("postgres.JSONB", bits, vec![ab(&cat(&[&[ver], q.as_bytes()]))]);
+        }
+        // invalid UTF-8 inside an otherwise valid text
+        for bad in [&[0xffu8][..], &[0xc0, 0x80], &[0xe2, 0x82], &[0xed, 0xa0, 0x80]] {
+            let t = cat(&[format!("0x{v:x}").as_bytes(), bad]);
+            for op in ["postgres.TEXT", "postgres.VARCHAR", "postgres.CHAR", "postgres.JSON"] {
+                m.case(op, bits, vec![ab(&t)]);
+            }
+            m.case("postgres.JSONB", bits, vec![ab(&cat(&[&[1], &t]))]);
+            m.case("serde_json.slice", bits, vec![ab(&cat(&[b"\"", &t, b"\""]))]);
+        }
+        for radix in [0u32, 1, 2, 3, 7, 8, 10, 16, 35, 36, 37, 62, 63, 64, 65, 100] {
+            let s = if (2..=64).contains(&radix) { fmt_radix(&v, radix) } else { format!("{v}") };
+            let rn = Arg::N(u128::from(radix));
+            m.case("from_str_radix", bits, vec![asr(&s), rn.clone()]);
+            m.case("from_str_radix", bits, vec![asr(&s.to_lowercase()), rn.clone()]);
+            m.case("from_str_radix", bits, vec![asr(&s.to_uppercase()), rn.clone()]);
+            m.case("from_str_radix", bits, vec![asr(&format!("{s}_")), rn.clone()]);
+            m.case("from_str_radix", bits, vec![asr(&format!("{s}=\r\n")), rn.clone()]);
+            m.case("from_str_radix", bits, vec![asr(&format!("{s}0")), rn.clone()]);
+            m.case("from_str_radix", bits, vec![asr(&format!("0{s}")), rn.clone()]);
+            m.case("from_str_radix", bits, vec![asr(&format!("{s}é")), rn.clone()]);
+        }
+    }
+    for s in SPECIAL_TEXT {
+        for radix in [0u128, 1, 2, 10, 16, 36, 37, 64, 65, u128::from(u64::MAX)] {
+            if m.keep() {
+                m.case("from_str_radix", bits, vec![asr(s), Arg::N(radix)]);
+            }
+        }
+    }
+    let mut r = m.stream("c17.text", bits);
+    for i in 0..m.iters(1200) {
+        if i % 128 == 0 && m.time_up() {
+            return;
+        }
+        let s = random_text(&mut r, bits);
+        emit_text(m, bits, &s);
+        let radix = *r.pick(&[2u128, 8, 10, 16, 36, 37, 58, 64, 65]);
+        m.case("from_str_radix", bits, vec![asr(&s), Arg::N(radix)]);
+        if i % 4 == 0 {
+            let doc = mutate_random(&mut r, format!("\"{s}\"").as_bytes());
+            emit_json_doc(m, bits, &doc);
+        }
+    }
+}
+
+fn main() {
+    let mut m = Mon::new("C17", dispatch);
+    if !m.replay_if_requested() {
+        for &bits in WIDTHS {
+            if m.width_enabled(bits) {
+                workload(&mut m, bits);
+            }
+        }
+    }
+    tally_report(&mut m);
+    m.finish();
+}
